@@ -33,7 +33,7 @@ func init() {
 		Real:  []string{"sm2 (Encrypt, EncryptASN1, Decrypt, PrivateKey.Decrypt, AdjustCiphertextSplicingOrder, ASN1Ciphertext2Plain, PlainCiphertext2ASN1)", "internal/sm3 KDF, internal/sm2ec (per node)"},
 		Stubs: []string{"ephemeral scalar source: scripted reader", "relays and transport (layout conversion chains, alteration, truncation, C1 substitution, wrong recipient)"},
 		Assume: []string{"model: GB/T 32918.4 encryption/decryption with math/big affine arithmetic and the SM3 model (anchored on the GB/T 32918.5 example at worker start-up)",
-			"sm2.PrivateKey objects are not re-keyed after use (the library's own cached (d+1)^-1 already makes that unsupported); the legacy-curve path (P-224/256/384/521) is checked by round trip and tamper refusal only (no model for those curves)",
+			"a key object is given another key only through the exported FromECPrivateKey (operation rekey); overwriting the exported embedded ecdsa key of a used object by plain assignment is not exercised (nothing in the library can notice it); the legacy-curve path (P-224/256/384/521) is checked by round trip and tamper refusal only (no model for those curves)",
 			"the constructive A5-retry generator searches the first scalar with the library's curve arithmetic and confirms it with the model",
 			"an altered byte string that the library decrypts to the ORIGINAL message (an equivalent re-encoding) is not a violation; any other plaintext is"},
 	})
@@ -72,7 +72,11 @@ func genC07(r *sim.Rand, tier string) *sim.Program {
 		ct := r.Intn(nct)
 		switch r.Intn(11) {
 		case 10:
-			p.Add("extend", ct, r.PickInt(1, 1, 2, 16, 32, 33)).WithB(r.Bytes(33))
+			if r.Chance(1, 3) {
+				p.Add("rekey", ct, r.Intn(1<<30))
+			} else {
+				p.Add("extend", ct, r.PickInt(1, 1, 2, 16, 32, 33)).WithB(r.Bytes(33))
+			}
 		case 0:
 			p.Add("dec", ct)
 		case 1, 2:
@@ -506,6 +510,36 @@ func execC07(t *testing.T, p *sim.Program, c *sim.Ctx) {
 				}
 				c.Abs("tr", rec.lay)
 				deliver(i, "truncated", priv, d, rec.lay, rec.ct[:len(rec.ct)-k], rec.msg)
+			case "rekey":
+				// ONE key object that decrypted with another key first and was then given this run's key through the
+				// exported FromECPrivateKey: from then on it is this run's key, for the right and for the wrong ciphertexts
+				c.Abs("rekey", rec.lay)
+				c.Hit("probe:key-object-rekeyed")
+				obj := new(sm2.PrivateKey)
+				if _, err := obj.FromECPrivateKey(&other.PrivateKey); err != nil {
+					c.Fail("setup", i, op.K, "FromECPrivateKey: %v", err)
+					return
+				}
+				oct, err := sm2.Encrypt(&sim.ScriptReader{Data: scalar(op.Int(1), "rekey k").FillBytes(make([]byte, 32)), Fill: 9, Step: 5}, &other.PublicKey, rec.msg, c07Opts(rec.lay))
+				if err != nil {
+					c.Fail("encrypt-failed", i, op.K, "%v", err)
+					return
+				}
+				if got, err := c07LibDecrypt(obj, rec.lay, oct); err != nil || !bytes.Equal(got, rec.msg) {
+					if _, _, _, ok := sm2m.EncryptWithK(sm2m.Point{X: other.X, Y: other.Y}, scalar(op.Int(1), "rekey k"), rec.msg); ok {
+						c.Fail("valid-ciphertext-refused", i, op.K, "the object does not decrypt for its first key: %v", err)
+						return
+					}
+				}
+				if _, err := obj.FromECPrivateKey(&priv.PrivateKey); err != nil {
+					c.Fail("setup", i, op.K, "FromECPrivateKey (second key): %v", err)
+					return
+				}
+				deliver(i, "rekeyed-object", obj, d, rec.lay, rec.ct, rec.msg)
+				if !c.Failed() {
+					// the ciphertext for the FIRST key is now a wrong-key delivery
+					deliver(i, "rekeyed-object-old-ciphertext", obj, d, rec.lay, oct, nil)
+				}
 			case "extend":
 				// bytes appended behind a valid ciphertext: no layout has room for them (ASN.1: trailing data; plain: C2
 				// grows and C3 no longer fits), so neither decryption nor a converter-then-decryption chain may return a message
